@@ -9,7 +9,7 @@ PY := /venv/bin/python
 setup: translate coq driver
 
 translate:
-	python3 tools/translate.py $(SRC) $(COQDIR)/Gen
+	PYTHONPATH=$(dir $(patsubst %/,%,$(SRC))) PYTHONDONTWRITEBYTECODE=1 $(PY) tools/translate_rt.py $(COQDIR)/Gen
 	python3 tools/translate_fns.py $(SRC) $(COQDIR)/Gen
 
 $(COQDIR)/Makefile.coq: $(COQDIR)/_CoqProject
